@@ -16,10 +16,10 @@ from vf import fnref
 from vf.core import exc_key
 
 LEVEL = "exploration"
-RULE = ("exhaustive part (same for every seed): every simple polygon given as a vertex sequence (every start vertex, "
-        "both orientations) with 3 and 4 vertices on the 4x4 integer grid; 5-vertex ones: a seeded third of those "
-        "with their smallest vertex first (quick) or every sequence (thorough); thorough also all 6-vertex ones "
-        "with their smallest vertex first; each against "
+RULE = ("exhaustive part (same for every seed): simple polygons given as vertex sequences on the 4x4 integer grid; "
+        "thorough: every sequence (every start vertex, both orientations) with 3, 4 and 5 vertices plus a seeded half "
+        "of the 6-vertex ones with their smallest vertex first; quick: every 3-vertex sequence, the 4-vertex ones "
+        "with their smallest vertex first (both orientations) and a seeded third of such 5-vertex ones; each against "
         "all 16 grid points, 8 calls per point (wind, inside x2, insideOnly, outside x2, outsideOnly, sideOnly); "
         "random part: star-shaped and 2-opt-untangled simple polygons with 5..40 vertices and coordinates up to "
         "1e3/1e9/1e18, points = vertices, lattice points on edges and their neighbours, points level with a vertex, "
@@ -185,7 +185,8 @@ def run(ctx):
     brute = set(s for s in itertools.permutations(GRID, 3) if fnref.is_simple_polygon(s))
     if brute != set(fnref.simple_polygons(GRID, 3)):
         raise Inconclusive("polygon enumerator disagrees with brute force")
-    codes = enumerate_grid(3, False) + enumerate_grid(4, False)
+    quads = enumerate_grid(4, ctx.quick)           # quick: smallest vertex first only (4 580 of the 18 320 sequences)
+    codes = enumerate_grid(3, False) + quads
     pent_all = enumerate_grid(5, True) if ctx.quick else enumerate_grid(5, False)
     if ctx.quick:
         # quick tier: a seeded third of the pentagons (smallest vertex first); thorough takes every sequence
@@ -196,32 +197,33 @@ def run(ctx):
     codes += pent
     nhex = 0
     if not ctx.quick:
-        hexa = enumerate_grid(6, True)
+        hexa = [c for i, c in enumerate(enumerate_grid(6, True)) if i % 2 == ctx.seed % 2]   # a seeded half
         nhex = len(hexa)
         codes += hexa
-    ctx.extra["grid_polygons_enumerated"] = {"3": 3096, "4": 18320, "5": len(pent), "6": nhex}
+    ctx.extra["grid_polygons_enumerated"] = {"3": 3096, "4": len(quads), "5": len(pent), "6": nhex}
     import random
     random.Random(5).shuffle(codes)               # balance the chunks; the set of cases is unchanged
-    jobs = [{"kind": "grid", "codes": ch} for ch in fnref.chunks(codes, ctx.pick(32, 128))]
-    nrand = ctx.pick(1600, 12000)
-    per = ctx.pick(200, 1000)
+    jobs = [{"kind": "grid", "codes": ch} for ch in fnref.chunks(codes, ctx.pick(16, 128))]
+    nrand = ctx.pick(640, 8000)
+    per = ctx.pick(80, 500)
     jobs += [{"kind": "random", "count": per} for _ in range(nrand // per)]
     ctx.shard(jobs, timeout=ctx.pick(120, 340))
     ctx.exhaustive = True
-    ctx.extra["exhaustive_scope"] = ("4x4 grid: all simple vertex sequences with 3, 4%s vertices, against all 16 grid "
-                                     "points; larger polygons sampled" % (
-                                         " (5-vertex ones only sampled)" if ctx.quick else ", 5 and (smallest vertex first) 6"))
+    ctx.extra["exhaustive_scope"] = ("4x4 grid, against all 16 grid points: " + (
+        "all 3-vertex sequences, all 4-vertex polygons (one start vertex, both orientations), 5-vertex ones sampled"
+        if ctx.quick else "all simple vertex sequences with 3, 4 and 5 vertices; 6-vertex ones sampled") +
+        "; larger polygons sampled")
     ctx.floor("grid_polygons_3", 3096)
-    ctx.floor("grid_polygons_4", 18320)
+    ctx.floor("grid_polygons_4", len(quads))
     ctx.floor("grid_polygons_5", len(pent))
     if not ctx.quick:
         ctx.floor("grid_polygons_6", nhex)
-    ctx.floor("points_in", 20000)
-    ctx.floor("points_on", 100000)
-    ctx.floor("points_out", 100000)
-    ctx.floor("points_on_edge_not_vertex", 10000)
+    ctx.floor("points_in", 8000)
+    ctx.floor("points_on", 40000)
+    ctx.floor("points_out", 50000)
+    ctx.floor("points_on_edge_not_vertex", 8000)
     ctx.floor("random_star", nrand // 6)
     ctx.floor("random_untangled", nrand // 30)
     ctx.floor("random_orientation_cw", nrand // 8)
     ctx.floor("random_orientation_ccw", nrand // 8)
-    ctx.floor("distinct_nontrivial", 10000)
+    ctx.floor("distinct_nontrivial", 5000)
